@@ -9,7 +9,7 @@ Coq model is fed the recorded rng.randint / rng.permutation draws (common.Rec) a
 captured by a recording proxy for the `np` name of bct.algorithms.reference (np.argsort results, the result of
 np.allclose(W, W.T), the result of np.round(1/wei_freq); run time only, nothing in /repo is edited); it must then
 reproduce the implementation's matrices EXACTLY, consume exactly the recorded draws, and end the same way
-(return / BCTParamError / RecursionError / UFuncTypeError).
+(return / BCTParamError; any other exception is a violation).
 """
 import math
 from fractions import Fraction as F
@@ -25,10 +25,10 @@ THEOREMS = ['C06_pick4_distinct', 'C06_pick4_digits', 'C06_pick4_needs_4', 'C06_
             'C06_null_model_inv_general', 'C06_null_model_rewiring_inv', 'C06_null_model_und_rejects',
             'C06_corr3_var', 'C06_corr3_cov',
             'C06_signed_run_diag_empty', 'C06_signed_run_selfloop_kept', 'C06_randmio_diag_refuted',
-            'C06_randmio_small_n_never_returns', 'C06_randmio_ret_sound', 'C06_null_model_total', 'C06_period_domain',
+            'C06_randmio_small_n_returns_input', 'C06_randmio_ret_sound', 'C06_null_model_total', 'C06_period_domain',
             'C06_period_exact', 'C06_null_model_param_error_iff', 'C06_corr_cauchy_schwarz', 'C06_corr_r_squared_range',
             'C06_corr_equal_seq', 'C06_null_model_corr_range', 'C06_null_model_corr_one', 'C06_null_model_checked_symmetry']
-RULE = ('signed matrices, n = 1..16 (mostly 4..9; n <= 3: the rewiring cannot return), weights: integers 1..4, dyadic k/8 (k = 1..40), '
+RULE = ('signed matrices, n = 1..16 (mostly 4..9; n <= 3: returned unchanged by the rewiring), weights: integers 1..4, dyadic k/8 (k = 1..40), '
         'integers up to 1000, float or integer dtype; densities 0.3-1.0, directed for *_dir / symmetric for *_und; families: both signs '
         '(mixed), one sign only, fully connected positive support (rewiring skipped), sparse, all-equal magnitudes (ties), nonzero input '
         'diagonal, nearly symmetric (np.allclose decides) and asymmetric input for the *_und routines; itr/bin_swaps in {0,1,2,3,5,10}; '
@@ -38,7 +38,7 @@ RULE = ('signed matrices, n = 1..16 (mostly 4..9; n <= 3: the rewiring cannot re
         'non-trivial = at least one accepted swap or at least two weights dealt; distinct by hash of (function, matrix, parameters, seed)')
 ASSUMES = ['weights are dyadic rationals k/2^m with small k: every float operation the model treats as exact (moves, sign tests, s*w, W0+W0.T) is exact in binary64; the model runs on the integers k (fixed-point reading of Z)',
            'the recorded stream splits by kind: every rng.randint precedes the first rng.permutation (checked on each run)',
-           'np.argsort(P.flat[Lij]) is a float-decided order and is taken from the run (oracle); the model checks only that it is a permutation; the P / S / Si / So updates feeding it are not modelled (except the UFuncTypeError they raise on an integer array)',
+           'np.argsort(P.flat[Lij]) is a float-decided order and is taken from the run (oracle); the model checks only that it is a permutation; the P / S / Si / So updates feeding it are not modelled',
            'np.allclose(W, W.T) and np.round(1/wei_freq) are float decisions taken from the run (oracles); the model checks the second against the exact quotient (within 1) and ignores the first for exactly symmetric input',
            'returned correlations are compared with cxy/sqrt(cxx*cyy) of the exact rational strength sequences at relative tolerance 1e-9; NaN iff cxx*cyy = 0',
            'itr / bin_swaps are non-negative integers (float values such as 0.5 are accepted by the code and not modelled)']
@@ -315,11 +315,7 @@ def run(ctx):
         shape_ok = all(e[0] == 'randint' and tuple(e[1]) == (n ** 4,) for e in rec.log)
         if exc is not None:
             ctx.case(case, nontrivial=False)
-            if isinstance(exc, RecursionError) and n <= 3:
-                # no four distinct nodes exist: pick_four_unique_nodes_quickly recurses until the interpreter gives up
-                ctx.fail(fn + ':small_n', 'raised RecursionError on a network with %d nodes instead of returning it' % n, case)
-            else:
-                ctx.fail(fn + ':raises', 'raised %r' % (exc,), case)
+            ctx.fail(fn + ':raises', 'raised %r on a %d-node %s network instead of returning' % (exc, n, A.dtype), case)
             if shape_ok:
                 lines.append('rs %d %s %d %s' % (und, enc_mat(Zm), itr, enc_list(draws)))
                 pend.append(('rs_raise', case, type(exc).__name__, None))
@@ -421,19 +417,15 @@ def run(ctx):
             got = not isinstance(exc, bct.utils.BCTParamError) if exc is not None else True
             if log['allclose'] and (close != want or got != want):
                 ctx.mismatch(fn + ':allclose', 'input %s by np.allclose(W, W.T) but the routine %s it' % ('symmetric' if want else 'not symmetric', 'accepted' if got else 'rejected'), case, want, got)
-        line = 'nm %d %s %d %d %d %s %d %s %s %s' % (und, enc_mat(Zm), g['isint'], close, bs, enc_q(wfq), pf, enc_list(ints), enc_mat(log['argsort']), enc_mat(perms))
+        line = 'nm %d %s %d %d %s %d %s %s %s' % (und, enc_mat(Zm), close, bs, enc_q(wfq), pf, enc_list(ints), enc_mat(log['argsort']), enc_mat(perms))
         symmetric = all(Zm[i][j] == Zm[j][i] for i in range(n) for j in range(n))
         if exc is not None:
             ctx.case(case, nontrivial=False)
             nm = type(exc).__name__
             if isinstance(exc, bct.utils.BCTParamError) and und and not symmetric:
                 ctx.count('null_model_und_sign:rejected')          # the contract: asymmetric input is refused
-            elif nm == 'UFuncTypeError' and g['isint'] and wf != 0:
-                ctx.fail(fn + ':int_dtype', 'raised %s on an integer-dtype matrix (wei_freq=%s): %s' % (nm, wf, str(exc)[:120]), case)
-            elif isinstance(exc, RecursionError) and n <= 3:
-                ctx.fail(fn + ':small_n', 'raised RecursionError on a network with %d nodes instead of returning' % n, case)
             else:
-                ctx.fail(fn + ':raises', 'raised %r' % (exc,), case)
+                ctx.fail(fn + ':raises', 'raised %r on a %d-node %s network instead of returning' % (exc, n, A.dtype), case)
             if stream_ok:
                 lines.append(line)
                 pend.append(('nm_raise', case, nm, None))
@@ -504,14 +496,14 @@ def run(ctx):
             pass
         except Exception as e:
             ctx.fail('null_model_und_sign:reject', 'raised %r instead of BCTParamError' % (e,), case)
-        lines.append('nm 1 %s 0 0 1 1/2 2 0 0 0' % enc_mat(g['Z']))
+        lines.append('nm 1 %s 0 1 1/2 2 0 0 0' % enc_mat(g['Z']))
         pend.append(('nm_raise', case, 'BCTParamError', None))
 
     # ---------------- correspondence: extracted Coq model on the same inputs and draws
     if os.environ.get("C06_DUMP"): open(os.environ["C06_DUMP"], "w").write("\n".join(lines) + "\n")
     res = run_model(ID, lines)
     ctx.model_cases = len(lines)
-    EXC = {'BCTParamError': 'ParamError', 'RecursionError': 'NoQuad', 'UFuncTypeError': 'CastError'}
+    EXC = {'BCTParamError': 'ParamError'}
     for (kind, case, impl, _), m in zip(pend, res):
         fn = case['fn']
         if is_err(m):
@@ -522,11 +514,8 @@ def run(ctx):
                 ctx.mismatch(fn, 'model %s / impl %s (unread draws must be 0)' % (m, impl), case, m, impl)
             continue
         if kind == 'rs_raise':
-            # the only way not to return that the model knows: the rewiring never gets four distinct nodes
-            if m is not None or impl != 'RecursionError':
-                ctx.mismatch(fn + ':raises', 'implementation raised %s, model %s' % (impl, 'returns' if m is not None else 'does not return (no four distinct nodes)'), case, None, impl)
-            else:
-                ctx.count('rs:raise_replayed')
+            # the model of randmio_*_signed has no way to raise (None only when the recorded draws run out)
+            ctx.mismatch(fn + ':raises', 'implementation raised %s, model %s' % (impl, 'returns' if m is not None else 'runs out of recorded draws'), case, None, impl)
             continue
         if kind == 'nm_raise':
             got = m.get('raise') if isinstance(m, dict) else 'returns'
@@ -538,7 +527,7 @@ def run(ctx):
         if kind == 'rs':
             R, eff, events, scale = impl
             if m is None:
-                ctx.mismatch(fn, 'model: the recorded draws run out (no four distinct nodes) but the implementation returned', case)
+                ctx.mismatch(fn, 'model: the recorded draws run out but the implementation returned', case)
                 continue
             Rm, effm, rest, tr = m
             if not np.array_equal(unscale(Rm, scale).reshape(R.shape), R):
@@ -643,8 +632,7 @@ def replay(ctx, payload):
             print('output', W0.tolist(), 'corr', [float(x) for x in cc])
     except Exception as e:
         nm = type(e).__name__
-        key = (':int_dtype' if nm == 'UFuncTypeError' and A.dtype.kind in 'iu' else ':small_n' if isinstance(e, RecursionError) and n <= 3 else ':raises')
-        ctx.fail(fn + key, 'raised %s: %s' % (nm, str(e)[:160]), case)
+        ctx.fail(fn + ':raises', 'raised %s: %s' % (nm, str(e)[:160]), case)
     for f in ctx.oracle_fail:
         print('VIOLATED', f['key'], f['what'])
     for k, h in ctx.known_hits.items():
